@@ -27,7 +27,7 @@ def one(seed):
         props = sorted(set(l.split()[1] for l in viol))
         caught = [l for l in r.stdout.split("\n") if l.startswith("CAUGHT_BY_CHECKS")]
         caught = json.loads(caught[0].split(" ", 1)[1]) if caught else None
-        return {"seed": seed, "exit": r.returncode, "props_flagged": props, "caught_by_checks": caught, "first": [v[:260] for v in viol[:4]],
+        return {"seed": seed, "n": int(n), "exit": r.returncode, "props_flagged": props, "caught_by_checks": caught, "first": [v[:260] for v in viol[:4]],
                 "err": r.stderr[-300:] if r.returncode else ""}
     finally:
         subprocess.run("git -C /repo worktree remove --force %s" % wt, shell=True, capture_output=True)
